@@ -35,7 +35,7 @@ def budget(tier):
 
 @st.composite
 def strategy_(draw, tier):
-    mol = draw(gens.mols(tier, families=("er", "skeleton", "wlhard", "chem", "deep", "deep", "multi")))
+    mol = draw(gens.mols(tier, families=("er", "skeleton", "wlhard", "chem", "deep", "deep", "multi", "collide")))
     n = len(mol["atoms"])
     return {"mol": mol, "pi": draw(gens.perms(n)), "order": draw(gens.perms(n)), "post": draw(st.sampled_from(["none", "none", "relabel", "recanon"]))}
 
